@@ -78,7 +78,9 @@ class Statistics:
     def __mul__(self, other: Any) -> Statistics:
         if not np.isscalar(other):
             return INVALID_STATISTICS
-        other_scalar = cast(float, other)
+        # In double precision, whatever the type of the factor (a numpy float32 would
+        # turn the sums into single-precision numbers for good)
+        other_scalar = float(cast(float, other))
         return dataclasses.replace(
             self,
             sum=self.sum * other_scalar,
